@@ -40,4 +40,18 @@ PROPS["C11"] = {
     "replay_hint": "from code_data._flags_data import to_flags_data, from_flags_data; to_flags_data(data['flags'])",
 }
 
+DATA_IMPORTS = "Base.Cfg Model.Flags Model.Args Model.FlagsSer Model.Data Model.Consts Model.LineTable Model.LineTableSer Model.Blocks Model.CodeData Model.DataSer Gen.Cfg{TAG}"
+PROPS["C01"] = {
+    "imports": DATA_IMPORTS,
+    "prelude": "Definition cfg := Cfg{TAG}.cfg.",
+    "level_text": "TODO",
+    "level_note": "TODO",
+    "trusted_base": COMMON_TB,
+    "assumptions": [],
+    "rule": "corpus of real code objects (repository examples, inline programs, a deterministic stdlib subset; thorough: whole stdlib) and generated programs "
+            "x compile mode x optimisation level, every nested code object; distinct = distinct (co_code, name, firstlineno, line table)",
+    "replay_hint": "compile the named file / program under the named interpreter and compare CodeData.from_code(c).to_code() with c attribute by attribute",
+    "claimed": False,
+}
+
 NOT_CLAIMED = {}
